@@ -899,10 +899,10 @@ def cases_A(thorough, alpha):
 
 
 def _sel_product(thorough):
-    x1 = [None, 0] + (["...", [0]] if thorough else [])
-    x2 = [None, 0, 1, [0, 1], [1], "slice:0:1", "..."] + (["none", "slice:1:2", [0]] if thorough else [])
-    y1 = [None, 0] + (["..."] if thorough else [])
-    y2 = [None, 1, [0, 1], [0]] + (["slice:0:1", 0, "none"] if thorough else [])
+    x1 = [None, 0] + (["..."] if thorough else [])
+    x2 = [None, 0, 1, [0, 1], [1], "slice:0:1", "..."] + (["none", "slice:1:2"] if thorough else [])
+    y1 = [None, 0]
+    y2 = [None, 1, [0, 1], [0]] + (["slice:0:1", 0] if thorough else [])
     for a, b, c, d in itertools.product(x1, x2, y1, y2):
         yield {k: v for k, v in (("x1", a), ("x2", b), ("y1", c), ("y2", d)) if v is not None}
 
